@@ -327,7 +327,7 @@ func mutate(frames [][]byte, n int, rng *rand.Rand) ([]byte, []string) {
 	for i := range frames {
 		fs[i] = append([]byte(nil), frames[i]...)
 	}
-	var desc []string
+	desc := []string{}
 	for k := 0; k < n && len(fs) > 0; k++ {
 		i := rng.Intn(len(fs))
 		f := fs[i]
